@@ -186,6 +186,18 @@ CLAIMED["C10"] = dict(
     note=TSYS_NOTE,
 )
 
+CLAIMED["C17"] = dict(
+    engine="tsys",
+    technique="bounded model checking of testscript.waitOrStop (go/ssa -> transition system: waiting goroutine, helper goroutine, process, deadline and timer as interleaved processes; z3 decides safety, deadlock and the unwinding assertion) plus symbolic execution (symx) of RunT's deadline arithmetic and cmdExec's attribution with the distance to the deadline as a 64-bit solver variable",
+    text=("PART of the property, stated as such. (1) tsys: waitOrStop and its helper goroutine are translated from SSA (unbuffered channel, both selects, closure cells); the command's process, the context deadline and the kill-delay timer are "
+          "environment processes whose behaviour (exits by itself or blocks, honours or ignores the interrupt, exit status, deadline set or not) is chosen by the solver. For every interleaving inside the bound z3 shows: no signal before the deadline; kill only after "
+          "the interrupt and after the grace-period timer fired; with a deadline set (or a process that exits by itself) waitOrStop and its helper always finish, i.e. a process that ignores the interrupt is killed; it returns only after the process was waited for; a process signalled while running is reported with a non-nil error; an unsignalled one with Wait's own result. "
+          "(2) symx: through the real RunT/run/cmdExec/exec with stubs for the clock, context.WithTimeout, exec and waitOrStop: grace period = max(100ms, 5% of the remaining time) for every remaining time in [-2^40, 2^55] ns, the run context expires exactly two grace periods before Params.Deadline, foreground commands wait on that context with kill delay one grace period, a command error after the context expired fails the script with the timed-out message, and a run without deadline or a command that succeeds is unaffected. "
+          "NOT claimed: wall-clock completion of RunT and its subtests, real process liveness, scheduling slack."),
+    design_ref="DESIGN.md §0.6",
+    note=TSYS_NOTE,
+)
+
 NOT_APPLICABLE = {
     "C20": "goproxytest's behaviour lives in net/http, archive/zip+flate, encoding/json (reflection) and directory walks; none is encodable by the SSA symbolic executor, and with them stubbed nothing solver-relevant remains (its once-per-key ingredient is par.Cache = C10)",
 }
